@@ -294,7 +294,8 @@ class World(EventDispatcher):
             f'Entity ID must be hashble, found {entity}, which is not')
 
         if immediate:
-            for component_type in self._entities[entity]:
+            components = self._entities[entity]
+            for component_type in components:
                 self._components[component_type].discard(entity)
 
                 if not self._components[component_type]:
@@ -303,6 +304,23 @@ class World(EventDispatcher):
             del self._entities[entity]
             # A pending deferred deletion is fulfilled by this one
             self._dead_entities.discard(entity)
+
+            # Event handling, see remove_component
+            for component in components.values():
+                if not hasattr(component, '__events__'):
+                    continue
+
+                if ON_REMOVE_EVENT_NAME in component.__events__:
+                    if self._dispatch_enabled:
+                        getattr(component,
+                                component.__events__[ON_REMOVE_EVENT_NAME])(
+                                    entity, self)
+                    else:
+                        self.dispatch(ON_SINGLE_DISPATCH_EVENT_NAME,
+                                      ON_REMOVE_EVENT_NAME,
+                                      component, entity, self)
+
+                self.remove_handler(component)
 
         else:
             self._dead_entities.add(entity)
